@@ -44,6 +44,11 @@ impl BlockFormatter for BlockIndentRemover {
     ) -> Vec<Range<usize>> {
         let bytes = content.as_bytes();
 
+        // The block starts at the line break that ended the removed opening part.
+        if bytes.get(start_byte_pos) != Some(&b'\n') {
+            return vec![];
+        }
+
         let indent_ofs = match find_prev_line_break_pos(content, bytes, start_byte_pos, true) {
             Some(pos) => start_byte_pos - pos - 1,
             None => 0,
